@@ -33,6 +33,32 @@ Fixpoint set_funcs (defs : list (str * str)) (fs : list (str * str)) : list (str
   | d :: r => set_funcs r (d :: fs)
   end.
 
+(** the words of a pipeline, and the same without output redirections written as separate words
+    (`> f`, `>> f`, `1> f`, `2> f`, `2>> f`): redirects_to is not part of the command's words, so it
+    cannot change which builtin / function the line is *)
+Fixpoint words_acc (l : str) (cur : str) : list str :=
+  match l with
+  | [] => match cur with [] => [] | _ => [cur] end
+  | c :: r => if (c =? c_space) || (c =? 9)
+              then match cur with [] => words_acc r [] | _ => cur :: words_acc r [] end
+              else words_acc r (cur ++ [c])
+  end.
+Definition words (l : str) : list str := words_acc l [].
+
+Definition is_redir_op (t : str) : bool :=
+  str_eqb t [62] || str_eqb t [62; 62] || str_eqb t [49; 62] || str_eqb t [49; 62; 62]
+  || str_eqb t [50; 62] || str_eqb t [50; 62; 62].
+
+Fixpoint drop_redirs (ws : list str) : list str :=
+  match ws with
+  | [] => []
+  | t :: r =>
+      if is_redir_op t then match r with [] => [] | _ :: r' => drop_redirs r' end
+      else t :: drop_redirs r
+  end.
+
+Definition cmd_words (line : str) : list str := drop_redirs (words line).
+
 Section M.
 Variable ext : str -> Z.                   (* status of an external command line *)
 Variable file_text : str -> option str.    (* contents of a script file *)
@@ -46,19 +72,27 @@ Fixpoint exec_pipe (fuel : nat) (w : shs) (line : str) {struct fuel} : shs * Z :
   match fuel with
   | O => (w, 0%Z)
   | S f =>
-      let '(cmd, rest) := first_word line in
-      if str_eqb line s_set_e then (mk_shs true (s_funcs w) (s_log w), 0%Z)        (* builtins/set.rs *)
-      else if str_eqb cmd s_source then run_script f w (trim rest)                    (* builtins/source.rs *)
-      else
-        match get_func cmd (s_funcs w) with
-        | Some body =>                                                              (* core.rs try_run_func *)
-            (* let cr_list = run_lines(body); status = cr_list.last().map_or(0, |cr| cr.status) *)
-            match run_lines shs (run_line_of shs (exec_pipe f)) no_words no_setvar s_eoe n body w with
-            | Some (Done w1 crs _ _) => (w1, func_call_status crs)
-            | _ => (w, 0%Z)
+      match cmd_words line with
+      | [] => (w, 0%Z)
+      | cmd :: args =>
+          if str_eqb cmd [115; 101; 116] && match args with [a] => str_eqb a [45; 101] | _ => false end
+          then (mk_shs true (s_funcs w) (s_log w), 0%Z)                               (* builtins/set.rs: set -e *)
+          else if str_eqb cmd s_source then                                           (* builtins/source.rs *)
+            match args with
+            | path :: _ => run_script f w path
+            | [] => (w, 0%Z)                                                          (* no file specified *)
             end
-        | None => (mk_shs (s_eoe w) (s_funcs w) (s_log w ++ [line]), ext line)
-        end
+          else
+            match get_func cmd (s_funcs w) with
+            | Some body =>                                                            (* core.rs try_run_func *)
+                (* let cr_list = run_lines(body); status = cr_list.last().map_or(0, |cr| cr.status) *)
+                match run_lines shs (run_line_of shs (exec_pipe f)) no_words no_setvar s_eoe n body w with
+                | Some (Done w1 crs _ _) => (w1, func_call_status crs)
+                | _ => (w, 0%Z)
+                end
+            | None => (mk_shs (s_eoe w) (s_funcs w) (s_log w ++ [line]), ext line)
+            end
+      end
   end
 with run_script (fuel : nat) (w : shs) (path : str) {struct fuel} : shs * Z :=
   match fuel with
